@@ -17,9 +17,12 @@ import (
 	"net"
 	"net/http"
 	"os"
+	"sort"
 	"strconv"
 	"strings"
+	"sync"
 	"testing"
+	"time"
 
 	"git.arvados.org/arvados.git/internal/c19kit"
 	"git.arvados.org/arvados.git/internal/verifkit"
@@ -36,6 +39,87 @@ type c19KeepCase struct {
 
 const c19Foo = "acbd18db4cc2f85cedef654fccc4a4d8" // md5("foo")
 
+// ---------------------------------------------------------------- concurrent callers
+
+// c19Step is the scripted answer of the remote Keep services to one probe of
+// one block.
+type c19Step struct {
+	Status int  `json:"status"`         // 404, 408, 429, 500, 503 (then the next probe follows)
+	Hold   bool `json:"hold,omitempty"` // the probe is held at the remote until the schedule releases it
+}
+
+// c19ConcClient is one caller of the keepstore: its own token, its own block
+// (unique hash, so that every probe the remote receives can be attributed).
+type c19ConcClient struct {
+	Tok    c19kit.Tok `json:"tok"`
+	Scheme string     `json:"auth_scheme"`
+	Script []c19Step  `json:"script"`           // answers to the first probes
+	Found  bool       `json:"remote_has_block"` // answer after the script: 200+data or 404
+	Data   string     `json:"data"`
+	Hash   string     `json:"hash"`
+}
+
+type c19ConcCase struct {
+	Remote  string          `json:"remote"`
+	Free    bool            `json:"free_running,omitempty"` // no holds: all callers start at once
+	Clients []c19ConcClient `json:"clients"`
+	Picks   []int           `json:"schedule,omitempty"` // client advanced at each step (start it, or release its held probe)
+}
+
+type c19ConcState struct {
+	idx       int
+	cl        *c19ConcClient
+	free      bool
+	probes    int
+	events    chan string // "held" | "done"
+	release   chan bool
+	startsAt1 int // number of callers started when this one's first probe arrived
+}
+
+type c19ConcHub struct {
+	mu      sync.Mutex
+	byHash  map[string]*c19ConcState
+	starts  int
+	exposed int // probes (2nd or later of a fetch) that arrived after another caller had been started in between
+	held    int
+	probesN int
+}
+
+func (h *c19ConcHub) lookup(hash string) *c19ConcState {
+	h.mu.Lock()
+	defer h.mu.Unlock()
+	return h.byHash[hash]
+}
+
+// probe answers one probe of a registered block according to its script.
+func (h *c19ConcHub) probe(st *c19ConcState) (int, string) {
+	h.mu.Lock()
+	n := st.probes
+	st.probes++
+	h.probesN++
+	if n == 0 {
+		st.startsAt1 = h.starts
+	} else if h.starts > st.startsAt1 {
+		h.exposed++
+	}
+	h.mu.Unlock()
+	if n < len(st.cl.Script) {
+		step := st.cl.Script[n]
+		if step.Hold && !st.free {
+			h.mu.Lock()
+			h.held++
+			h.mu.Unlock()
+			st.events <- "held"
+			<-st.release
+		}
+		return step.Status, "scripted\n"
+	}
+	if st.cl.Found {
+		return 200, st.cl.Data
+	}
+	return 404, "not found\n"
+}
+
 func TestVerifC19(t *testing.T) {
 	run := verifkit.Start(t, "C19")
 	defer run.Finish()
@@ -49,34 +133,42 @@ func TestVerifC19(t *testing.T) {
 	remotes := []string{"z1111", "z2222", "z3333"}
 	clusters := append([]string{"zzzzz"}, remotes...)
 	apis := map[string]*c19kit.Stub{}
-	keeps := map[string]*c19kit.Stub{}
+	keeps := map[string][]*c19kit.Stub{} // two Keep services per remote
 	found := true
+	conc := &c19ConcHub{byHash: map[string]*c19ConcState{}}
 	for _, id := range remotes {
 		id := id
-		ks, err := c19kit.NewStub(false)
-		if err != nil {
-			t.Fatal(err)
-		}
-		defer ks.Close()
-		ks.Respond = func(r *c19kit.Req) (int, string) {
-			if r.Method == "GET" && strings.HasPrefix(r.RequestURI, "/"+c19Foo) && found {
-				return 200, "foo"
+		var svcs []arvados.KeepService
+		for k := 0; k < 2; k++ {
+			ks, err := c19kit.NewStub(false)
+			if err != nil {
+				t.Fatal(err)
 			}
-			return 404, "not found\n"
+			defer ks.Close()
+			ks.Respond = func(r *c19kit.Req) (int, string) {
+				if len(r.RequestURI) >= 33 {
+					if st := conc.lookup(r.RequestURI[1:33]); st != nil {
+						return conc.probe(st)
+					}
+				}
+				if r.Method == "GET" && strings.HasPrefix(r.RequestURI, "/"+c19Foo) && found {
+					return 200, "foo"
+				}
+				return 404, "not found\n"
+			}
+			keeps[id] = append(keeps[id], ks)
+			host, port, _ := net.SplitHostPort(ks.Addr)
+			portnum, _ := strconv.Atoi(port)
+			svcs = append(svcs, arvados.KeepService{UUID: fmt.Sprintf("%s-bi6l4-proxyproxyprox%d", id, k), ServiceType: "proxy", ServiceHost: host, ServicePort: portnum, ServiceSSLFlag: false})
 		}
-		keeps[id] = ks
 		as, err := c19kit.NewStub(true)
 		if err != nil {
 			t.Fatal(err)
 		}
 		defer as.Close()
-		host, port, _ := net.SplitHostPort(ks.Addr)
-		portnum, _ := strconv.Atoi(port)
 		as.Respond = func(r *c19kit.Req) (int, string) {
 			if strings.HasPrefix(r.RequestURI, "/arvados/v1/keep_services/accessible") {
-				b, _ := json.Marshal(arvados.KeepServiceList{Items: []arvados.KeepService{{
-					UUID: id + "-bi6l4-proxyproxyproxy", ServiceType: "proxy", ServiceHost: host, ServicePort: portnum, ServiceSSLFlag: false,
-				}}})
+				b, _ := json.Marshal(arvados.KeepServiceList{Items: svcs})
 				return 200, string(b)
 			}
 			b, _ := json.Marshal(arvados.DiscoveryDocument{})
@@ -109,7 +201,9 @@ func TestVerifC19(t *testing.T) {
 	exec := func(c c19KeepCase) outcome {
 		for _, id := range remotes {
 			apis[id].Reset()
-			keeps[id].Reset()
+			for _, ks := range keeps[id] {
+				ks.Reset()
+			}
 		}
 		found = c.Found
 		sig := strings.Repeat("ab", 20)
@@ -134,7 +228,13 @@ func TestVerifC19(t *testing.T) {
 		toks := []c19kit.Tok{c.Tok}
 		for _, id := range remotes {
 			araw, areqs := apis[id].Take()
-			kraw, kreqs := keeps[id].Take()
+			var kraw []byte
+			var kreqs []c19kit.Req
+			for _, ks := range keeps[id] {
+				r1, q1 := ks.Take()
+				kraw = append(kraw, r1...)
+				kreqs = append(kreqs, q1...)
+			}
 			for _, r := range areqs {
 				for _, sp := range c19kit.Spots(r) {
 					o.apiTok[sp.Value]++
@@ -251,6 +351,375 @@ func TestVerifC19(t *testing.T) {
 		run.Count("keep_matrix_cases", 1)
 		keepCase(c, i+3, rng)
 	})
+
+	// ------------------------------------------------------------ concurrent / interleaved callers
+	//
+	// Several callers with different tokens fetch different blocks from ONE
+	// remote through the ONE keepstore router at overlapping times. The
+	// remote Keep services answer the first probes of a block with
+	// 404/408/429/500/503 (so every fetch makes several probes) and can hold a
+	// probe while other callers pass through. Every probe the remote receives
+	// is attributed to its caller by the block hash and must carry that
+	// caller's token in an allowed (salted) form — never another caller's
+	// token, never an unsalted secret.
+	type concOut struct {
+		findings []c19kit.Finding // Tok = index of the caller whose probe it was
+		other    map[int]int      // finding index -> caller whose token showed up
+		probes   int
+		evals    int
+		searched int
+		picks    []int
+		statuses []int
+		timeout  bool
+	}
+	caseNo := 0
+	execConc := func(c c19ConcCase, rng *verifkit.Rand) concOut {
+		var o concOut
+		o.other = map[int]int{}
+		for _, id := range remotes {
+			apis[id].Reset()
+			for _, ks := range keeps[id] {
+				ks.Reset()
+			}
+		}
+		states := make([]*c19ConcState, len(c.Clients))
+		conc.mu.Lock()
+		conc.byHash = map[string]*c19ConcState{}
+		for k := range c.Clients {
+			states[k] = &c19ConcState{idx: k, cl: &c.Clients[k], free: c.Free, events: make(chan string, 16), release: make(chan bool, 16)}
+			conc.byHash[c.Clients[k].Hash] = states[k]
+		}
+		conc.mu.Unlock()
+		o.statuses = make([]int, len(c.Clients))
+		sig := strings.Repeat("cd", 20)
+		start := func(k int) {
+			conc.mu.Lock()
+			conc.starts++
+			conc.mu.Unlock()
+			cl := c.Clients[k]
+			go func() {
+				defer func() { states[k].events <- "done" }()
+				path := fmt.Sprintf("/%s+%d+R%s-%s@7fffffff", cl.Hash, len(cl.Data), c.Remote, sig)
+				req, err := http.NewRequest("GET", hs.srv.URL+path, nil)
+				if err != nil {
+					return
+				}
+				req.Header.Set("Authorization", cl.Scheme+" "+cl.Tok.Str)
+				resp, err := hs.cl.Do(req)
+				if err == nil {
+					io.Copy(ioutil.Discard, resp.Body)
+					resp.Body.Close()
+					o.statuses[k] = resp.StatusCode
+				}
+			}()
+		}
+		started := make([]bool, len(c.Clients))
+		done := make([]bool, len(c.Clients))
+		wait := func(k int) bool {
+			select {
+			case ev := <-states[k].events:
+				if ev == "done" {
+					done[k] = true
+				}
+				return true
+			case <-time.After(3 * time.Minute):
+				o.timeout = true
+				return false
+			}
+		}
+		advance := func(k int) bool {
+			if done[k] {
+				return true
+			}
+			if !started[k] {
+				started[k] = true
+				start(k)
+			} else {
+				states[k].release <- true
+			}
+			o.picks = append(o.picks, k)
+			return wait(k)
+		}
+		if c.Free {
+			for k := range c.Clients {
+				started[k] = true
+				start(k)
+			}
+			for k := range c.Clients {
+				for !done[k] && wait(k) {
+				}
+			}
+		} else {
+			ok := true
+			for _, k := range c.Picks {
+				if k >= 0 && k < len(c.Clients) && !done[k] {
+					if ok = advance(k); !ok {
+						break
+					}
+				}
+			}
+			for ok {
+				var todo []int
+				for k := range c.Clients {
+					if !done[k] {
+						todo = append(todo, k)
+					}
+				}
+				if len(todo) == 0 {
+					break
+				}
+				k := todo[0]
+				if len(c.Picks) == 0 && rng != nil {
+					k = todo[rng.Intn(len(todo))]
+				}
+				ok = advance(k)
+			}
+		}
+		if o.timeout {
+			// unblock whatever is still held so that the goroutines end
+			for k := range states {
+				for n := 0; n < 8; n++ {
+					states[k].release <- true
+				}
+			}
+		}
+		conc.mu.Lock()
+		conc.byHash = map[string]*c19ConcState{}
+		conc.mu.Unlock()
+
+		// ---- judge every probe the remote received
+		byHash := map[string]int{}
+		var allToks []c19kit.Tok
+		var legit []string
+		for k, cl := range c.Clients {
+			byHash[cl.Hash] = k
+			allToks = append(allToks, cl.Tok)
+			legit = append(legit, cl.Hash, cl.Data)
+		}
+		legit = append(legit, sig)
+		add := func(f c19kit.Finding, other int) {
+			for i, g := range o.findings {
+				if g.Sig == f.Sig && g.Tok == f.Tok && o.other[i] == other {
+					return
+				}
+			}
+			o.other[len(o.findings)] = other
+			o.findings = append(o.findings, f)
+		}
+		for _, id := range remotes {
+			var raw []byte
+			var reqs []c19kit.Req
+			araw, _ := apis[id].Take()
+			raw = append(raw, araw...)
+			for _, ks := range keeps[id] {
+				r1, q1 := ks.Take()
+				raw = append(raw, r1...)
+				reqs = append(reqs, q1...)
+			}
+			for _, r := range reqs {
+				if len(r.RequestURI) < 33 {
+					continue
+				}
+				k, ok := byHash[r.RequestURI[1:33]]
+				if !ok {
+					continue
+				}
+				o.probes++
+				owner := c.Clients[k].Tok
+				exp := c19kit.Expected(owner, id)
+				for _, sp := range c19kit.Spots(r) {
+					o.evals++
+					if exp.Allows(sp.Value) {
+						continue
+					}
+					// whose token is it?
+					explained := false
+					for k2, cl2 := range c.Clients {
+						if k2 == k {
+							continue
+						}
+						e2 := c19kit.Expected(cl2.Tok, id)
+						switch {
+						case sp.Value == cl2.Tok.Str && (e2.MustSalt || cl2.Tok.Class == "legacy"):
+							add(c19kit.Finding{Sig: "C19:N3:keepstore-concurrent:unsalted-secret-of-another-request-in-authorization-header", Tok: k,
+								Detail: fmt.Sprintf("a probe for the block of caller %d (token %q) reached remote %s carrying the UNSALTED token %q of caller %d", k, owner.Str, id, cl2.Tok.Str, k2)}, k2)
+							explained = true
+						case sp.Value == cl2.Tok.Str || e2.Allows(sp.Value):
+							add(c19kit.Finding{Sig: "C19:N1:keepstore-concurrent:token-of-another-request-forwarded", Tok: k,
+								Detail: fmt.Sprintf("a probe for the block of caller %d (token %q, want %q) reached remote %s carrying %q, which is the token of caller %d (%q)", k, owner.Str, exp.Allowed, id, sp.Value, k2, cl2.Tok.Str)}, k2)
+							explained = true
+						}
+						if explained {
+							break
+						}
+					}
+					if !explained {
+						j := c19kit.JudgeReceived("keepstore-concurrent", []c19kit.Tok{owner}, id, clusters, nil, []c19kit.Req{r}, []string{"xxx"}, legit)
+						for _, f := range j.Findings {
+							f.Tok = k
+							add(f, -1)
+						}
+					}
+				}
+			}
+			// N3 over everything this remote received, for every caller's secret
+			j := c19kit.JudgeReceived("keepstore-concurrent", allToks, id, clusters, raw, nil, []string{"xxx"}, legit)
+			o.evals += j.Evals
+			o.searched += j.Searched
+			for _, f := range j.Findings {
+				dup := false
+				for _, g := range o.findings {
+					if strings.Contains(g.Sig, "unsalted-secret") {
+						dup = true
+					}
+				}
+				if !dup {
+					add(f, -1)
+				}
+			}
+		}
+		return o
+	}
+
+	genConc := func(rng *verifkit.Rand, free bool) c19ConcCase {
+		caseNo++
+		c := c19ConcCase{Remote: remotes[rng.Intn(len(remotes))], Free: free}
+		n := rng.Range(2, 5)
+		for k := 0; k < n; k++ {
+			var cl c19ConcClient
+			switch {
+			case k == 0 || rng.Chance(1, 3):
+				// a caller whose token can be salted and whose fetch needs several probes
+				cl.Tok = c19kit.MakeTok(rng, rng.PickStr("v2-ordinary", "v2-ordinary", "v2-extra", "v2-nonhex40", "v2-of-remote"), c.Remote, "zzzzz")
+			case rng.Chance(1, 2):
+				cl.Tok = c19kit.MakeTok(rng, rng.PickStr("legacy-local", "legacy-unknown", "v2-hex40-foreign", "opaque-jwt", "opaque-40-alnum", "v2-hex40-of-remote"), c.Remote, "zzzzz")
+			default:
+				cl.Tok = c19kit.GenTok(rng, c19kit.GenOpts{Remote: c.Remote, Others: clusters, NoFault: true})
+			}
+			cl.Scheme = rng.PickStr("OAuth2", "Bearer")
+			cl.Found = rng.Chance(3, 4)
+			for s := rng.Range(0, 4); s > 0; s-- {
+				cl.Script = append(cl.Script, c19Step{Status: rng.PickInt(404, 503, 503, 500, 429, 408), Hold: rng.Chance(1, 2)})
+			}
+			if k == 0 && len(cl.Script) == 0 {
+				cl.Script = []c19Step{{Status: 503, Hold: true}}
+			}
+			cl.Data = fmt.Sprintf("c19 block %d/%d/%d %s", run.BatchK(), caseNo, k, rng.String(rng.Range(0, 40), "abcdefghijklmnopqrstuvwxyz "))
+			cl.Hash = verifkit.MD5Hex([]byte(cl.Data))
+			c.Clients = append(c.Clients, cl)
+		}
+		return c
+	}
+
+	nConcProbes, nConcTimeouts := 0, 0
+	concCase := func(c c19ConcCase, i int, rng *verifkit.Rand) {
+		run.Input(c, false)
+		o := execConc(c, rng)
+		c.Picks = o.picks
+		run.Input(c, false)
+		if i < 1 {
+			run.Sample(c)
+		}
+		run.Eval(1 + o.evals)
+		run.Count("conc_cases", 1)
+		run.Count("conc_callers", len(c.Clients))
+		run.Count("conc_probes_received_by_remote", o.probes)
+		run.Count("conc_secrets_searched", o.searched)
+		nConcProbes += o.probes
+		for k, st := range o.statuses {
+			run.Count(fmt.Sprintf("conc_status_%d", st), 1)
+			_ = k
+		}
+		if o.timeout {
+			nConcTimeouts++
+			run.Inconclusive(fmt.Sprintf("C19 keepstore-concurrent: watchdog fired in case %d (a caller neither finished nor reached a held probe)", i))
+			return
+		}
+		mode := "scheduled"
+		if c.Free {
+			mode = "free-running"
+		}
+		kinds := map[string]bool{}
+		for _, cl := range c.Clients {
+			kinds[c19kit.KindFeature(cl.Tok)] = true
+		}
+		var kl []string
+		for k := range kinds {
+			kl = append(kl, k)
+		}
+		sort.Strings(kl)
+		if o.probes > 0 {
+			run.Feature(fmt.Sprintf("keepstore-concurrent,%s,callers=%d,%s", mode, len(c.Clients), strings.Join(kl, "+")))
+		} else {
+			run.Trivial()
+		}
+		for fi, f := range o.findings {
+			// witness: only the two callers involved, same relative schedule
+			mc := c
+			if other, ok := o.other[fi]; ok && other >= 0 && len(c.Clients) > 2 && !c.Free {
+				keep := []int{f.Tok, other}
+				sort.Ints(keep)
+				small := c19ConcCase{Remote: c.Remote}
+				remap := map[int]int{}
+				for _, k := range keep {
+					remap[k] = len(small.Clients)
+					small.Clients = append(small.Clients, c.Clients[k])
+				}
+				for _, k := range c.Picks {
+					if nk, ok := remap[k]; ok {
+						small.Picks = append(small.Picks, nk)
+					}
+				}
+				so := execConc(small, nil)
+				for _, g := range so.findings {
+					if g.Sig == f.Sig {
+						mc, f = small, g
+						break
+					}
+				}
+			}
+			b, _ := json.Marshal(mc)
+			run.Violation(f.Sig, fmt.Sprintf("%s; remote=%q; witness (callers, scripted remote answers, schedule): %s", f.Detail, mc.Remote, b), mc)
+		}
+	}
+	ncc := run.N(700, 14000)
+	run.Cases("keepstore-concurrent", ncc, func(i int, rng *verifkit.Rand) {
+		concCase(genConc(rng, i%7 == 6), i, rng)
+	})
+	// the minimal interleaving, for every kind of second caller: B (v2) is
+	// held at its first probe, A passes through, B's probe is answered 503/404
+	var mcombos [][2]string
+	for _, kind := range c19kit.Kinds {
+		for _, first := range []string{"503", "404"} {
+			mcombos = append(mcombos, [2]string{kind, first})
+		}
+	}
+	run.Cases("keepstore-concurrent-matrix", len(mcombos), func(i int, rng *verifkit.Rand) {
+		caseNo++
+		remote := remotes[i%len(remotes)]
+		st := 503
+		if mcombos[i][1] == "404" {
+			st = 404
+		}
+		mkc := func(kind string, k int, script []c19Step) c19ConcClient {
+			cl := c19ConcClient{Tok: c19kit.MakeTok(rng, kind, remote, "zzzzz"), Scheme: rng.PickStr("OAuth2", "Bearer"), Found: true, Script: script}
+			cl.Data = fmt.Sprintf("c19 matrix block %d/%d/%d", run.BatchK(), caseNo, k)
+			cl.Hash = verifkit.MD5Hex([]byte(cl.Data))
+			return cl
+		}
+		c := c19ConcCase{Remote: remote, Picks: []int{0, 1, 0}}
+		c.Clients = []c19ConcClient{mkc("v2-ordinary", 0, []c19Step{{Status: st, Hold: true}}), mkc(mcombos[i][0], 1, nil)}
+		run.Count("conc_matrix_cases", 1)
+		concCase(c, i+1, rng)
+	})
+	conc.mu.Lock()
+	run.Count("conc_probes_held_at_remote", conc.held)
+	run.Count("conc_later_probes_after_another_caller_started", conc.exposed)
+	exposed := conc.exposed
+	conc.mu.Unlock()
+	if !run.Replaying() && nConcTimeouts == 0 && (nConcProbes == 0 || exposed == 0) {
+		run.Inconclusive("C19 keepstore-concurrent: no fetch ever made a second probe after another caller had passed through: the interleaving was not observed")
+	}
 	if !run.Replaying() && nFwd == 0 {
 		run.Inconclusive("C19 keepstore-proxy: the remote Keep service never received a request: nothing observed")
 	}
